@@ -131,11 +131,25 @@ fn gen_case(rng: &mut Rng, t: &Tree, stats: &mut BTreeMap<String, u64>) -> C12Ca
             }
             _ => (rng.pick(&src_files).clone(), t.src.clone()),
         };
+        // other names of the same file: paths through symbolic links (`inc -> lib`,
+        // `compat.c -> lib/util.c`, chains, absolute targets) that canonicalise to it
+        let canon = |r: &str| std::fs::canonicalize(Path::new(&home).join(r)).ok();
+        let aliases: Vec<String> = if home == t.src && !t.rel_links.is_empty() && canon(&rel).is_some() {
+            src_files.iter().filter(|v| **v != rel && canon(v) == canon(&rel)).cloned().collect()
+        } else {
+            vec![]
+        };
         for _ in 0..rng.range(1, 4) {
+            let base = if !aliases.is_empty() && rng.chance(1, 2) {
+                *stats.entry("spelling.via_link".to_string()).or_insert(0) += 1;
+                rng.pick(&aliases).clone()
+            } else {
+                rel.clone()
+            };
             let k = if rng.chance(1, 6) {
                 gen_key(rng, t, cfg.pd.as_deref(), &mut BTreeMap::new())
             } else {
-                respell(rng, t, &rel, &home, cfg.pd.as_deref(), stats)
+                respell(rng, t, &base, &home, cfg.pd.as_deref(), stats)
             };
             let i = entries.len() as u32;
             let mut c = gen_cov(rng, i);
@@ -392,8 +406,17 @@ fn oracles(rep: &mut Report, t: &Tree, case: &C12Case, r: &Result<Recs, String>,
                 if total != want {
                     fails.push((format!("covdir root linesTotal {} is not the sum over records {}", total, want), None));
                 }
+                // one file under two reported names: the records share the ABSOLUTE path (two keys
+                // reach the file through a symbolic link and no source dir lets add_results
+                // canonicalise them); covdir files absolute reported paths under the absolute path
+                let mut abs_seen: BTreeSet<&String> = BTreeSet::new();
+                let abs_dups = recs.iter().filter(|(a, _, _)| !abs_seen.insert(a)).count();
+                if counting && abs_dups > 0 {
+                    rep.count_n("out.one_file_two_names", abs_dups as u64);
+                }
                 if dups.is_empty() && listed != total {
-                    fails.push(("covdir: no duplicate path, yet the listed files do not add up to the root total".into(), None));
+                    fails.push(("covdir: no duplicate path, yet the listed files do not add up to the root total".into(),
+                        if abs_dups > 0 { Some(FINDING) } else { None }));
                 }
                 if counting {
                     rep.count_n("out.covdir_total_mismatch", bad.len() as u64);
@@ -403,7 +426,7 @@ fn oracles(rep: &mut Report, t: &Tree, case: &C12Case, r: &Result<Recs, String>,
                         break; // two different files under one name: covdir cannot list both
                     }
                     fails.push((format!("covdir counts a file more than once: {}", b),
-                        if !dups.is_empty() && g.is_none() { Some(FINDING) } else { None }));
+                        if (!dups.is_empty() && g.is_none()) || abs_dups > 0 { Some(FINDING) } else { None }));
                 }
             }
             Err(p) => fails.push((format!("output_covdir failed: {}", p), None)),
